@@ -110,7 +110,10 @@ def run(chk, tier):
         for code, name in ((0, "BypassFilter"), (1, "BypassMapInControl"), (2, "ForceFilter")):
             v = common.at_point(got, F("op_code"), C(code, "u16"))
             expect(chk, "R-TABLE", M + "range_zone::RangeZone::op_code", v, unit_variant(OC, name), f2.where(), "op code %d" % code)
-    # the generation date-time accessor is C08's
+    # the generation date-time: the same obligation C08 puts on this accessor (closed form and no panic)
+    from rules import c08
+    from nx import chrono_model as cm
+    chk.floor("generation date-time accessor", c08.accessor(chk, prog, cm.evaluator(prog), M + "header::Header::date_time", no_panic=True), 1)
 
 
 def find_seqs(t, out):
